@@ -1,7 +1,30 @@
 """C07: extend-split areas tile the domain and each carries a valid local combination.
 
 Correspondence: the real SpatiallyAdaptiveExtendScheme, driven step-wise with a scripted ErrorCalculator, against the
-extracted Gallina model (coq/Model/ExtendSplit.v).  Oracle: the property's own predicate on the implementation alone."""
+extracted Gallina model (coq/Model/ExtendSplit.v, coq/Model/ESInterp.v).  Oracle: the property's own predicate on the
+implementation alone.
+
+Envelope (axes of the property's quantifier and how the generator covers them; the histogram of every axis value goes
+into the evidence through chk.count):
+  dimension            1 (versions 1,2 run; version 0 raises IndexError in coarsen_grid: known finding C07-v0-dim1), 2, 3, 4 in
+                       histories; 2..5 in the exhaustive coarsen_grid sweep
+  start levels         lmin 1..3, lmax - lmin 0..3 in histories (the scheme grows with every extend of a coarsening-0 area);
+                       lmin 0..3, lmax - lmin 0..6 in the sweep
+  coarsening version   0, 1, 2 (3 is undocumented and outside the property)
+  number_of_refinements_before_extend 0..3 and 6 (never extends)
+  automatic_extend_split / split_single_dim  on / off (all four combinations)
+  refinement decisions scripted benefits k/8 per (seed, step, box) incl. zeros and ties; `uniform` histories (all benefits
+                       equal: every area is refined in every round, up to 256 areas)
+  histories on ONE strategy object: 2..5 events, each a refine()+evaluate step, a restart
+                       performSpatiallyAdaptiv(refinement_container=self.refinement) (every area is evaluated again), or a
+                       re-run performSpatiallyAdaptiv(lmin', lmax') with other start levels; between the events the harness
+                       calls coarsen_grid for every (area, component grid) (fills levelvec_dict), the point assignment and the
+                       interpolation __call__
+  evaluation points    dyadic points of the domain, points on faces / corners / midpoints of leaves, points outside the
+                       domain, the empty list, lists of > 1000 points
+  excluded (raise on the unchanged tree, not part of the documented options): no_initial_splitting=True (assert False in
+                       initialize_refinement), dim_adaptive=True (TypeError in combiScheme), version 3
+"""
 import itertools
 import random
 import zlib
@@ -20,32 +43,84 @@ ASSUMPTIONS = [
     'twin bookkeeping and the error-estimate arithmetic of automatic_extend_split are not modelled (only their calls of '
     'coarsen_grid on dead parent areas, which do not touch the leaves)',
     'coarsening version 3 (undocumented) is outside the property and not modelled',
+    'interpolation: the model interpolates in exact rational arithmetic; implementation values are compared with the '
+    'tolerance 1e-9 * (1 + |value|) (polynomial test function with dyadic coefficients, dyadic points)',
+    'restart performSpatiallyAdaptiv(refinement_container=...) is modelled as an evaluation of all areas (Model/ESInterp.v restart = '
+    'mark_all_new + evaluate; theorems C07_*_with_restarts); a re-run with other start levels is a fresh model history',
 ]
 
+# the error-estimate arithmetic of automatic_extend_split (not modelled): functions of SpatiallyAdaptiveExtendScheme
+AUTO_ESTIMATOR = {'compute_benefits_for_operations', 'get_parent_extend_operation', 'get_parent_split_operation',
+                  'get_parent_split_operation2', 'get_reference_operation', 'set_extend_benefit', 'set_split_benefit',
+                  'set_extend_error_correction', 'evaluate_operation_area_complete_flexibel', 'calc_error',
+                  'get_sum_sibling_value', 'get_best_fit', 'get_previous_value_from_split_parent', 'initialize_error_estimates'}
+
 DOMAINS = [(0, 1), (0, 1), (-1, 1), (0, 2), (Fraction(1, 2), Fraction(3, 2)), (-2, 1), (Fraction(-1, 4), Fraction(3, 4)), (1, 4)]
+TOL = 1e-9
 
 
 # ------------------------------------------------------------------------------------------------ generator
+def gen_events(rng, steps, lmin, span, dim, auto=False):
+    ev = []
+    for k in range(steps):
+        r = rng.random()
+        if r < 0.09 and k > 0:
+            ev.append('restart')
+        elif r < 0.17 and k > 0 and dim <= 3:
+            l2 = rng.choice([1, 2, 3] if dim == 2 else [1, 2])
+            # automatic_extend_split cannot refine with lmin = lmax (known finding C07-auto-lmin-eq-lmax-raises)
+            ev.append(['rerun', l2, l2 + rng.choice(([0, 1, 1, 2] if not auto else [1, 1, 2]) if dim == 2 and l2 < 3
+                                                    else ([0, 1] if not auto else [1]))])
+        else:
+            ev.append('step')
+    return ev
+
+
 def gen_case(rng, tier, i):
-    dim = rng.choice([2, 2, 3])
+    dim = rng.choice([2, 2, 2, 2, 3, 3, 3, 4, 1])
     version = rng.choice([0, 1, 2])
-    nrbe = rng.choice([0, 1, 2, 3])
+    if dim == 1 and rng.random() < 0.6:
+        version = rng.choice([1, 2])
+    nrbe = rng.choice([0, 1, 2, 3, 0, 1, 2, 6])
     auto = rng.random() < 0.4
     single = rng.random() < 0.4
-    lmin = rng.choice([1, 1, 2])
-    span = rng.choice([1, 1, 2]) if dim == 2 else rng.choice([1, 1, 2])
-    if dim == 3 and lmin == 2:
-        span = 1
-    steps = rng.randrange(2, 6 if dim == 2 else 5)
+    lmin = rng.choice([1, 1, 1, 2, 2, 3])
+    span = rng.choice([0, 1, 1, 2, 3] if dim <= 2 else [0, 1, 1, 2])
+    if dim == 3 and lmin >= 2:
+        span = min(span, 1)
+    if dim == 4:
+        lmin = rng.choice([1, 1, 2]); span = rng.choice([0, 1]) if lmin == 1 else 0
+    if dim <= 2 and lmin == 3:
+        span = min(span, 2)
+    if auto and span == 0 and rng.random() < 0.9:
+        span = 1        # lmin = lmax with automatic_extend_split raises at the first refine(): kept at low frequency
+    steps = rng.randrange(2, 6 if dim <= 2 else (5 if dim == 3 else 3))
     dom = [rng.choice(DOMAINS) for _ in range(dim)]
-    return dict(dim=dim, version=version, nrbe=nrbe, auto=auto, single=single, lmin=lmin, lmax=lmin + span,
-                steps=steps, a=[str(Fraction(d[0])) for d in dom], b=[str(Fraction(d[1])) for d in dom],
-                fn=rng.randrange(3), seed=rng.randrange(1 << 30), npts=rng.choice([6, 12]))
+    fn = rng.choice([0, 1, 2, 3, 3])
+    c = dict(dim=dim, version=version, nrbe=nrbe, auto=auto, single=single, lmin=lmin, lmax=lmin + span,
+             steps=steps, a=[str(Fraction(d[0])) for d in dom], b=[str(Fraction(d[1])) for d in dom],
+             fn=fn, seed=rng.randrange(1 << 30), npts=rng.choice([6, 12, 12, 0]))
+    c['events'] = gen_events(rng, steps, lmin, span, dim, auto)
+    if fn == 3:
+        c['poly'] = [[str(Fraction(rng.randrange(-4, 5), 2)) for _ in range(dim)],
+                     [str(Fraction(rng.choice([-3, -1, 1, 2, 3, 5, 6]), 2)) for _ in range(dim)]]
+    if rng.random() < 0.06 and dim <= 3 and not auto:
+        c['nbig'] = rng.choice([250, 1100])
+    if rng.random() < 0.05 and dim == 2 and not auto:
+        c.update(uniform=True, nrbe=rng.choice([2, 6]), steps=rng.choice([2, 3]), events=None)
+    return c
+
+
+def events_of(c):
+    ev = c.get('events')
+    if ev is None:
+        ev = ['step'] * c['steps']
+    return list(ev[:c['steps']])
 
 
 def case_key(c):
     return (c['dim'], c['version'], c['nrbe'], c['auto'], c['single'], c['lmin'], c['lmax'], c['steps'], tuple(c['a']),
-            tuple(c['b']), c['fn'], c['seed'])
+            tuple(c['b']), c['fn'], c['seed'], str(c.get('events')))
 
 
 # ------------------------------------------------------------------------------------------------ implementation
@@ -70,6 +145,19 @@ def _make_function(case):
     b = [float(Fraction(x)) for x in case['b']]
     mid = [(x + y) / 2 for x, y in zip(a, b)]
     k = case['fn']
+    if k == 3:
+        al = [float(Fraction(x)) for x in case['poly'][0]]
+        be = [float(Fraction(x)) for x in case['poly'][1]]
+
+        class Poly(F.Function):
+            """sum_d al_d x_d^2 + prod_d (be_d + x_d)  (= Model/StdCombi.v fun_poly)"""
+            def eval(self, x):
+                s, p = 0.0, 1.0
+                for a_, b_, xi in zip(al, be, x):
+                    s += a_ * xi * xi
+                    p *= (b_ + xi)
+                return s + p
+        return Poly()
     if k == 0:
         return F.GenzGaussian(tuple(m + 0.21 * (y - x) for m, x, y in zip(mid, a, b)), tuple([4.0] * dim))
     if k == 1:
@@ -123,8 +211,10 @@ def gen_points(rng, a, b, leaves, n):
 
 
 def impl_run(case):
-    """Drives the real strategy.  Returns the per-step observables and everything the model needs as input."""
+    """Drives the real strategy.  Returns the per-event observables and everything the model needs as input."""
     import numpy as np
+    import io
+    import contextlib
     from sparseSpACE.spatiallyAdaptiveExtendSplit import SpatiallyAdaptiveExtendScheme
     from sparseSpACE.GridOperation import Integration
     from sparseSpACE.Grid import TrapezoidalGrid
@@ -136,13 +226,14 @@ def impl_run(case):
     a = np.array([float(x) for x in aq])
     b = np.array([float(x) for x in bq])
     seed = case['seed']
+    uniform = bool(case.get('uniform'))
     rng = random.Random(seed)
     tr = dict(step=0, phase='', compute=[], refined=[], bens=[])
 
     class Scripted(ErrorCalculator):
         def calc_error(self, f, norm, volume_weights=None):
             box = _box(f)
-            k = scripted_benefit(seed, tr['step'], box)
+            k = 8 if uniform else scripted_benefit(seed, tr['step'], box)
             tr['bens'].append((box, k))
             ev = f.evaluations
             return (k / 8.0) * ev if ev != 0 else k / 8.0
@@ -163,7 +254,6 @@ def impl_run(case):
 
         def do_refinement(self, area, position):
             n0 = len(self.refinement.get_objects())
-            lm0 = self.lmax[0]
             res = super().do_refinement(area, position)
             new = self.refinement.get_objects()[n0:]
             pb = _box(area)
@@ -180,6 +270,9 @@ def impl_run(case):
     s = Observed(a, b, number_of_refinements_before_extend=case['nrbe'], version=case['version'],
                  automatic_extend_split=case['auto'], split_single_dim=case['single'], operation=op)
     ec = Scripted()
+
+    def inside(p):
+        return all(aq[d] <= p[d] <= bq[d] for d in range(dim))
 
     def observe(pts):
         objs = s.refinement.get_objects()
@@ -199,17 +292,30 @@ def impl_run(case):
             for p in cont:
                 assign.append([list(back[tuple(p)]), list(_box(area)[0]), list(_box(area)[1])])
         tl = sorted([list(_box(o)[0]), list(_box(o)[1])] for o in _tree_leaves(s.root_cell))
+        # the interpolation call of the strategy at the evaluation points inside the domain
+        ipts = [p for p in pts if inside(p)][:40] if case['fn'] == 3 else []
+        interp = []
+        if ipts:
+            vals = s([tuple(float(x) for x in p) for p in ipts])
+            interp = [[list(p), _fr(float(np.asarray(v).reshape(-1)[0]))] for p, v in zip(ipts, vals)]
         return dict(lmax=[int(x) for x in s.lmax], lmin=[int(x) for x in s.lmin], leaves=leaves, scheme=scheme, coarse=coarse,
-                    assign=sorted(assign), tree_leaves=tl, pts=[list(p) for p in pts])
+                    assign=sorted(assign), tree_leaves=tl, pts=[list(p) for p in pts], interp=interp)
 
     def pts_now():
         leaves = [_box(o) for o in s.refinement.get_objects()]
-        return gen_points(rng, aq, bq, leaves, case['npts'])
+        pts = gen_points(rng, aq, bq, leaves, case['npts'])
+        nb = case.get('nbig', 0)
+        if nb:
+            pts = sorted(set(pts) | set(tuple(aq[d] + (bq[d] - aq[d]) * Fraction(rng.randrange(0, 257), 256) for d in range(dim))
+                                        for _ in range(nb)))
+        return pts
 
     def point_sums():
-        """per leaf: coefficient sum of the computed component grids at every actual grid point (implementation grid)"""
+        """per leaf: coefficient sum of the computed component grids at every actual grid point (implementation grid);
+        nodal exactness of the strategy's interpolation at area grid points (assigned to the area whose grid they are on)"""
         bad = []
         npts = 0
+        per_leaf = {}
         for o in s.refinement.get_objects():
             acc = {}
             for cg in s.scheme:
@@ -221,44 +327,122 @@ def impl_run(case):
                     key = tuple(float(x) for x in p)
                     acc[key] = acc.get(key, 0) + _fr(cg.coefficient)
             npts += len(acc)
+            per_leaf[_box(o)] = acc
             for key, v in acc.items():
                 if v != 1:
                     bad.append([list(_box(o)[0]), list(_box(o)[1]), [_fr(x) for x in key], v])
                     break
-        return dict(npoints=npts, bad=bad[:3])
+        cand = sorted(set(p for acc in per_leaf.values() for p in acc))
+        if len(cand) > 120:
+            cand = random.Random(seed ^ tr['step']).sample(cand, 120)
+        nodal_bad, nodal_n = [], 0
+        if cand:
+            sel = []
+            for area, cont in s.get_points_assignement_to_areas(list(cand)):
+                acc = per_leaf.get(_box(area), {})
+                sel.extend((tuple(p), _box(area)) for p in cont if tuple(p) in acc)
+            if sel:
+                vals = s([p for p, _ in sel])
+                for (p, bx), v in zip(sel, vals):
+                    got = float(np.asarray(v).reshape(-1)[0])
+                    want = float(np.asarray(f.eval(p)).reshape(-1)[0])
+                    nodal_n += 1
+                    if not abs(got - want) <= TOL * (1 + abs(want)):
+                        nodal_bad.append([list(bx[0]), list(bx[1]), [_fr(x) for x in p], got, want])
+        return dict(npoints=npts, bad=bad[:3], nodal_n=nodal_n, nodal_bad=nodal_bad[:3])
 
     states, inputs = [], []
     abort = None
-    tr['step'] = 0
-    try:
-        s.performSpatiallyAdaptiv(case['lmin'], case['lmax'], ec, tol=-1, max_evaluations=1, do_plot=False, print_output=False)
+
+    def record(kind, lmin, lmax):
         pts = pts_now()
         st = observe(pts)
-        st['compute'] = sorted(tr['compute']); st['refined'] = []
-        st['ptsum'] = point_sums()
+        st['compute'] = sorted(tr['compute'])
+        st['refined'] = sorted(tr['refined']) if kind == 'step' else []
+        st['ptsum'] = point_sums() if (len(st['leaves']) <= 40) else None
+        st['kind'] = kind
         states.append(st)
-        inputs.append(dict(bens=list(tr['bens']), decs=[], pts=[list(p) for p in pts]))
-        for k in range(1, case['steps'] + 1):
-            tr.update(step=k, compute=[], refined=[], bens=[])
-            s.refine()
-            s.continue_adaptive_refinement(tol=-1, max_evaluations=1)
-            pts = pts_now()
-            st = observe(pts)
-            st['compute'] = sorted(tr['compute'])
-            st['refined'] = sorted(tr['refined'])
-            st['ptsum'] = point_sums() if (len(st['leaves']) <= 40) else None
-            states.append(st)
-            inputs.append(dict(bens=list(tr['bens']), decs=list(tr['refined']), pts=[list(p) for p in pts]))
+        inputs.append(dict(kind=kind, lmin=lmin, lmax=lmax, bens=list(tr['bens']),
+                           decs=list(tr['refined']) if kind == 'step' else [], pts=[list(p) for p in pts]))
+
+    try:
+        with contextlib.redirect_stdout(io.StringIO()):
+            tr['step'] = 0
+            s.performSpatiallyAdaptiv(case['lmin'], case['lmax'], ec, tol=-1, max_evaluations=1, do_plot=False, print_output=False)
+            record('init', case['lmin'], case['lmax'])
+            for k, ev in enumerate(events_of(case), start=1):
+                tr.update(step=k, compute=[], refined=[], bens=[])
+                if ev == 'step':
+                    s.refine()
+                    s.continue_adaptive_refinement(tol=-1, max_evaluations=1)
+                    record('step', None, None)
+                elif ev == 'restart':
+                    s.performSpatiallyAdaptiv(case['lmin'], case['lmax'], ec, tol=-1, max_evaluations=1, do_plot=False,
+                                              print_output=False, refinement_container=s.refinement)
+                    record('restart', None, None)
+                else:
+                    s.performSpatiallyAdaptiv(ev[1], ev[2], ec, tol=-1, max_evaluations=1, do_plot=False, print_output=False)
+                    record('init', ev[1], ev[2])
     except Exception as e:  # the states reached so far are still compared
         import os
         import traceback
-        where = ''
-        for fr in reversed(traceback.extract_tb(e.__traceback__)):
+        where, func = '', ''
+        frames = traceback.extract_tb(e.__traceback__)
+        for fr in reversed(frames):
             if 'sparseSpACE' in fr.filename:
                 where = '%s:%d' % (os.path.basename(fr.filename), fr.lineno)
+                func = fr.name
                 break
-        abort = (type(e).__name__, where, str(e)[:200], tr['step'])
+        in_est = any(fr.name in AUTO_ESTIMATOR and 'sparseSpACE' in fr.filename for fr in frames)
+        abort = (type(e).__name__, where, str(e)[:200], tr['step'], func, in_est)
     return dict(states=states, inputs=inputs, abort=abort)
+
+
+def sweep_run(case):
+    """coarsen_grid on fresh areas: ONE strategy object per (dim, version), re-initialised for a sequence of start levels
+    (lmin, lmax); per start level an area object for every coarsening value 0..lmax-lmin; two passes over the scheme on
+    the same area (the second pass sees the dictionary the first one left behind)."""
+    import numpy as np
+    import io
+    import contextlib
+    from sparseSpACE.spatiallyAdaptiveExtendSplit import SpatiallyAdaptiveExtendScheme
+    from sparseSpACE.RefinementObject import RefinementObjectExtendSplit
+    from sparseSpACE.GridOperation import Integration
+    from sparseSpACE.Grid import TrapezoidalGrid
+    from sparseSpACE.ErrorCalculator import ErrorCalculator
+    from sparseSpACE import Function as F
+    dim = case['dim']
+    a = np.zeros(dim)
+    b = np.ones(dim)
+
+    class NoRun(SpatiallyAdaptiveExtendScheme):
+        def continue_adaptive_refinement(self, *args, **kw):   # initialisation only: no evaluation
+            return None
+
+    class Zero(ErrorCalculator):
+        def calc_error(self, f, norm, volume_weights=None):
+            return 0.0
+
+    grid = TrapezoidalGrid(a=a, b=b, boundary=True)
+    op = Integration(f=F.ConstantValue(1.0), grid=grid, dim=dim, reference_solution=None)
+    s = NoRun(a, b, number_of_refinements_before_extend=1, version=case['version'], operation=op)
+    out = []
+    for lmin, lmax in case['configs']:
+        with contextlib.redirect_stdout(io.StringIO()):
+            s.performSpatiallyAdaptiv(lmin, lmax, Zero(), tol=-1, max_evaluations=1, do_plot=False, print_output=False)
+        scheme = [([int(x) for x in cg.levelvector], _fr(cg.coefficient)) for cg in s.scheme]
+        for c in range(0, lmax - lmin + 1):
+            area = RefinementObjectExtendSplit(start=a, end=b, grid=s.grid, number_of_refinements_before_extend=1,
+                                               coarseningValue=c)
+            passes = []
+            for _ in range(2):
+                rows = []
+                for cg in s.scheme:
+                    lc, dc = s.coarsen_grid(cg.levelvector, area)
+                    rows.append([[int(x) for x in cg.levelvector], [int(x) for x in lc], int(bool(dc))])
+                passes.append(rows)
+            out.append(dict(lmin=lmin, lmax=lmax, c=c, scheme=scheme, passes=passes))
+    return out
 
 
 # ------------------------------------------------------------------------------------------------ canonical forms
@@ -279,11 +463,12 @@ def canon_impl(st):
         assign=sorted(st['assign']),
         tree_leaves=sorted(st['tree_leaves']),
         compute=sorted([list(b[0]), list(b[1]), l, lc, int(dc)] for b, l, lc, dc in st['compute']),
-        refined=sorted([list(b[0]), list(b[1]), ext, dims] for b, ext, dims in st['refined']))
+        refined=sorted([list(b[0]), list(b[1]), ext, dims] for b, ext, dims in st['refined']),
+        interp={tuple(p): v for p, v in st.get('interp', [])})
 
 
 def canon_model(o):
-    lmax, leaves, scheme, coarse, assign, tl, compute, log, assert_ok = o
+    lmax, leaves, scheme, coarse, assign, tl, compute, log, assert_ok = o[:9]
     res = lambda rows: sorted([_ql(s), _ql(e), l, lc, dc] for s, e, l, lc, dc in rows)
     return dict(
         lmax=lmax,
@@ -294,22 +479,38 @@ def canon_model(o):
         tree_leaves=sorted([_ql(s), _ql(e)] for s, e in tl),
         compute=res(compute),
         refined=sorted([_ql(s), _ql(e), ext, dims] for s, e, ext, dims in log),
-        assert_ok=assert_ok)
+        assert_ok=assert_ok,
+        interp=({tuple(_ql(p)): _q(v) for p, v in o[9]} if len(o) > 9 else None))
 
 
 OBS = ['lmax', 'leaves', 'scheme', 'coarse', 'assign', 'tree_leaves', 'compute', 'refined']
 
 
-def model_input(case, r, variant=0):
-    """variant 0: coarsen_grid versions 1,2 as in the pinned code (minimum level 1 hard-coded in the diagonal arithmetic);
-    variant 1: the proposed repair fixes/C07-coarsen-lmin.patch (uses lmin).  Identical for lmin = 1."""
-    cfg = [case['dim'], case['version'], case['nrbe'], int(case['auto']), int(case['single']), case['lmin'], case['lmax'],
-           [Fraction(x) for x in case['a']], [Fraction(x) for x in case['b']], variant]
+def segments(r):
+    """[(first state index, last+1)] : a new segment starts at every (re-)initialisation"""
+    starts = [i for i, inp in enumerate(r['inputs']) if inp['kind'] == 'init']
+    return list(zip(starts, starts[1:] + [len(r['inputs'])]))
+
+
+def model_inputs(case, r, variant=0):
+    """one model run (entry sub 3) per segment.
+    variant 0: coarsen_grid versions 1,2 as in the pinned code (minimum level 1 hard-coded in the diagonal arithmetic);
+    variant 1: the repair fixes/C07-coarsen-lmin.patch (uses lmin).  Identical for lmin = 1."""
     enc_bens = lambda bens: [[list(b[0]), list(b[1]), k] for b, k in bens]
-    i0 = r['inputs'][0]
-    steps = [[[[list(b[0]), list(b[1]), ext, dims] for b, ext, dims in i['decs']], enc_bens(i['bens']), i['pts']]
-             for i in r['inputs'][1:]]
-    return [cfg, enc_bens(i0['bens']), i0['pts'], steps]
+    poly = [[Fraction(x) for x in case['poly'][0]], [Fraction(x) for x in case['poly'][1]]] if case['fn'] == 3 else [[], []]
+    out = []
+    for lo, hi in segments(r):
+        i0 = r['inputs'][lo]
+        cfg = [case['dim'], case['version'], case['nrbe'], int(case['auto']), int(case['single']), i0['lmin'], i0['lmax'],
+               [Fraction(x) for x in case['a']], [Fraction(x) for x in case['b']], variant]
+        steps = [[[[list(b[0]), list(b[1]), ext, dims] for b, ext, dims in i['decs']], enc_bens(i['bens']), i['pts'],
+                  1 if i['kind'] == 'restart' else 0] for i in r['inputs'][lo + 1:hi]]
+        out.append([cfg, poly, enc_bens(i0['bens']), i0['pts'], steps])
+    return out
+
+
+def model_ok(m):
+    return m is not None and not sx.is_err(m) and not isinstance(m, tuple)
 
 
 # ------------------------------------------------------------------------------------------------ oracle
@@ -364,11 +565,12 @@ def oracle_state(case, st):
         for d in range(dim):
             v *= e[d] - s[d]
         vol += v
-    for i in range(len(leaves)):
-        for j in range(i + 1, len(leaves)):
-            s1, e1, s2, e2 = leaves[i][0], leaves[i][1], leaves[j][0], leaves[j][1]
-            if all(max(s1[d], s2[d]) < min(e1[d], e2[d]) for d in range(dim)):
-                return ('overlap', 'leaves %s..%s and %s..%s overlap' % (s1, e1, s2, e2))
+    if len(leaves) <= 300:
+        for i in range(len(leaves)):
+            for j in range(i + 1, len(leaves)):
+                s1, e1, s2, e2 = leaves[i][0], leaves[i][1], leaves[j][0], leaves[j][1]
+                if all(max(s1[d], s2[d]) < min(e1[d], e2[d]) for d in range(dim)):
+                    return ('overlap', 'leaves %s..%s and %s..%s overlap' % (s1, e1, s2, e2))
     dv = Fraction(1)
     for d in range(dim):
         dv *= b[d] - a[d]
@@ -380,14 +582,14 @@ def oracle_state(case, st):
     got = {}
     for p, s, e in st['assign']:
         got.setdefault(tuple(p), []).append((s, e))
-    boxes = [(s, e) for s, e, c, n, p in leaves]
+    boxes = set((tuple(s), tuple(e)) for s, e, c, n, p in leaves)
     for p in st['pts']:
         p = tuple(p)
         if _inside(p, a, b):
             if len(got.get(p, [])) != 1:
                 return ('assignment', 'evaluation point %s is assigned to %d leaves' % (list(p), len(got.get(p, []))))
             s, e = got[p][0]
-            if not _inside(p, s, e) or (s, e) not in boxes:
+            if not _inside(p, s, e) or (tuple(s), tuple(e)) not in boxes:
                 return ('assignment', 'evaluation point %s is assigned to %s..%s which does not contain it / is no leaf' % (list(p), s, e))
     # local combination
     coeff = {tuple(l): c for l, c in st['scheme']}
@@ -404,6 +606,10 @@ def oracle_state(case, st):
     if st.get('ptsum') and st['ptsum']['bad']:
         s, e, p, v = st['ptsum']['bad'][0]
         return ('local-combination', 'area %s..%s: coefficients of the computed grids sum to %s at grid point %s' % (s, e, v, p))
+    if st.get('ptsum') and st['ptsum'].get('nodal_bad'):
+        s, e, p, got_, want = st['ptsum']['nodal_bad'][0]
+        return ('nodal-exactness', 'area %s..%s: the interpolant of the strategy is %r at the area grid point %s, the function value is %r'
+                % (s, e, got_, [str(x) for x in p], want))
     return None
 
 
@@ -417,7 +623,7 @@ def first_oracle_failure(case, r):
 
 # ------------------------------------------------------------------------------------------------ run
 CORPUS = [
-    # exemplar of the known finding C07-coarsen-v12-lmin (versions 1,2 hard-code minimum level 1)
+    # exemplar of the finding C07-coarsen-v12-lmin (fixed in /repo: versions 1,2 hard-coded minimum level 1)
     dict(dim=2, version=1, nrbe=0, auto=False, single=False, lmin=2, lmax=3, steps=1, a=['0', '0'], b=['1', '1'], fn=0, seed=3, npts=6),
     dict(dim=2, version=2, nrbe=0, auto=False, single=False, lmin=2, lmax=3, steps=1, a=['0', '0'], b=['1', '1'], fn=0, seed=3, npts=6),
     dict(dim=2, version=0, nrbe=1, auto=False, single=False, lmin=1, lmax=2, steps=4, a=['0', '0'], b=['1', '1'], fn=0, seed=11, npts=12),
@@ -426,16 +632,49 @@ CORPUS = [
     dict(dim=2, version=0, nrbe=2, auto=True, single=False, lmin=1, lmax=3, steps=4, a=['0', '0'], b=['1', '1'], fn=0, seed=14, npts=12),
     dict(dim=3, version=0, nrbe=0, auto=False, single=True, lmin=1, lmax=3, steps=3, a=['0', '-1', '0'], b=['1', '1', '2'], fn=2, seed=15, npts=6),
     dict(dim=2, version=2, nrbe=3, auto=True, single=True, lmin=1, lmax=2, steps=5, a=['0', '0'], b=['2', '1'], fn=1, seed=16, npts=12),
+    # exemplar of the known finding C07-v0-dim1 (version 0 in one dimension: IndexError in coarsen_grid)
+    dict(dim=1, version=0, nrbe=1, auto=False, single=False, lmin=1, lmax=2, steps=1, a=['0'], b=['1'], fn=0, seed=17, npts=6),
+    dict(dim=1, version=1, nrbe=1, auto=False, single=False, lmin=1, lmax=2, steps=3, a=['0'], b=['2'], fn=3, seed=18, npts=6,
+         poly=[['1'], ['1/2']]),
+    # exemplar of the known finding C07-single-dim1-print-indexerror (split_single_dim in one dimension)
+    dict(dim=1, version=2, nrbe=3, auto=False, single=True, lmin=1, lmax=2, steps=1, a=['0'], b=['1'], fn=1, seed=27, npts=6),
+    # exemplar of the known finding C07-auto-lmin-eq-lmax-raises (automatic_extend_split with lmin = lmax)
+    dict(dim=2, version=0, nrbe=3, auto=True, single=True, lmin=2, lmax=2, steps=1, a=['0', '0'], b=['1', '1'], fn=1, seed=28, npts=6),
+    # histories on one object: restart and re-run with other start levels, interpolation of a polynomial
+    dict(dim=2, version=0, nrbe=1, auto=False, single=False, lmin=1, lmax=2, steps=5, a=['0', '0'], b=['1', '1'], fn=3, seed=19, npts=12,
+         poly=[['1', '-3/2'], ['1/2', '3']], events=['step', 'step', 'restart', 'step', ['rerun', 2, 4]]),
+    dict(dim=2, version=1, nrbe=0, auto=False, single=False, lmin=2, lmax=3, steps=5, a=['0', '-1'], b=['1', '1'], fn=3, seed=20, npts=12,
+         poly=[['2', '1/2'], ['-1/2', '1']], events=['step', ['rerun', 1, 3], 'step', 'step', 'restart']),
+    dict(dim=3, version=2, nrbe=0, auto=False, single=True, lmin=1, lmax=2, steps=4, a=['0', '0', '0'], b=['1', '1', '1'], fn=3, seed=21,
+         npts=6, poly=[['1', '0', '-1'], ['1', '2', '1/2']], events=['step', 'restart', ['rerun', 1, 1], 'step']),
+    # many areas (uniform refinement: 4, 16, 64, 256, 1024 areas) and > 1000 evaluation points
+    dict(dim=2, version=0, nrbe=6, auto=False, single=False, lmin=1, lmax=2, steps=4, a=['0', '0'], b=['1', '1'], fn=3, seed=22, npts=12,
+         poly=[['1', '1'], ['1', '1']], uniform=True, nbig=1100),
+    dict(dim=2, version=1, nrbe=1, auto=False, single=False, lmin=1, lmax=2, steps=3, a=['0', '0'], b=['1', '2'], fn=0, seed=23, npts=12,
+         uniform=True),
+    dict(dim=4, version=0, nrbe=0, auto=False, single=False, lmin=1, lmax=2, steps=2, a=['0'] * 4, b=['1'] * 4, fn=3, seed=24, npts=6,
+         poly=[['1', '0', '1/2', '-1'], ['1', '2', '1/2', '3']]),
+    dict(dim=2, version=2, nrbe=0, auto=False, single=False, lmin=3, lmax=5, steps=4, a=['0', '0'], b=['1', '1'], fn=3, seed=25, npts=12,
+         poly=[['1', '2'], ['1/2', '3']]),
+    dict(dim=2, version=0, nrbe=0, auto=False, single=False, lmin=1, lmax=1, steps=5, a=['0', '0'], b=['1', '1'], fn=1, seed=26, npts=0),
 ]
 
 
 def compare(c, r, mr):
-    """first step at which model and implementation differ: (step, [observables], canon_model, canon_impl) or None"""
+    """first state at which model and implementation differ: (index, [observables], canon_model, canon_impl) or None.
+    mr: flat list of model observations aligned with r['states']."""
     for k, (mo, is_) in enumerate(zip(mr, r['states'])):
         cm, ci = canon_model(mo), canon_impl(is_)
         diff = [o for o in OBS if cm[o] != ci[o]]
         if not cm['assert_ok']:
             diff.append('assert num_sub_diagonal < dim')
+        if cm['interp'] is not None:
+            bad = [p for p, v in ci['interp'].items()
+                   if p not in cm['interp'] or not abs(float(v) - float(cm['interp'][p])) <= TOL * (1 + abs(float(cm['interp'][p])))]
+            if bad:
+                diff.append('interp')
+                cm['interp_bad'] = [([str(x) for x in p], float(ci['interp'][p]), (float(cm['interp'][p]) if p in cm['interp'] else None))
+                                    for p in bad[:3]]
         if diff:
             return k, diff, cm, ci
     if len(mr) != len(r['states']):
@@ -444,45 +683,96 @@ def compare(c, r, mr):
 
 
 def sig_of(c, **kw):
-    return dict(version=c['version'], auto=c['auto'], single=c['single'], lmin_gt1=c['lmin'] > 1, **kw)
+    return dict(version=c['version'], auto=c['auto'], single=c['single'], lmin_gt1=c['lmin'] > 1, dim1=c['dim'] == 1, **kw)
+
+
+def span0_at(c, step):
+    """lmin == lmax for the start levels in force at event number `step`"""
+    lmin, lmax = c['lmin'], c['lmax']
+    for e in events_of(c)[:max(0, step)]:
+        if isinstance(e, list):
+            lmin, lmax = e[1], e[2]
+    return lmin == lmax
+
+
+def run_models(cases, impl, idx, variant):
+    """model runs for the cases idx; returns {i: flat list of observations | error}"""
+    jobs, owner = [], []
+    for i in idx:
+        for seg in model_inputs(cases[i], impl[i][1], variant):
+            jobs.append((3, seg))
+            owner.append(i)
+    res = run_model(7, jobs)
+    out = {}
+    for i, m in zip(owner, res):
+        if i in out and not isinstance(out[i], list):
+            continue
+        if not model_ok(m):
+            out[i] = ('model-error', str(m)[:300])
+        else:
+            out.setdefault(i, []).extend(m)
+    return out
+
+
+def uses_repaired_levels(c):
+    lm = [c['lmin']] + [e[1] for e in events_of(c) if isinstance(e, list)]
+    return c['version'] in (1, 2) and any(x != 1 for x in lm)
 
 
 def check_cases(chk, cases):
     impl = run_impl(impl_run, cases, limit=240)
     midx = [i for i, (st, r) in enumerate(impl) if st == 'ok' and r['states']]
-    mres = dict(zip(midx, run_model(7, [(0, model_input(cases[i], impl[i][1], 0)) for i in midx])))
-    # cases on which the pinned-code variant differs are re-run against the repaired variant (only differs for lmin > 1)
-    retry = [i for i in midx if cases[i]['lmin'] > 1 and cases[i]['version'] in (1, 2) and not sx.is_err(mres[i])
-             and not isinstance(mres[i], tuple) and compare(cases[i], impl[i][1], mres[i])]
-    mres1 = dict(zip(retry, run_model(7, [(0, model_input(cases[i], impl[i][1], 1)) for i in retry])))
+    mres = run_models(cases, impl, midx, 0)
+    # cases on which the pinned-code variant differs are re-run against the repaired variant (only differs for lmin != 1)
+    retry = [i for i in midx if uses_repaired_levels(cases[i]) and isinstance(mres[i], list) and compare(cases[i], impl[i][1], mres[i])]
+    mres1 = run_models(cases, impl, retry, 1)
     keys, samples = [], []
     checker_in = {}
     for i, c in enumerate(cases):
         st, r = impl[i]
         chk.count('dim=%d' % c['dim']); chk.count('version=%d' % c['version']); chk.count('nrbe=%d' % c['nrbe'])
         chk.count('auto=%s' % c['auto']); chk.count('single=%s' % c['single']); chk.count('lmin=%d' % c['lmin'])
+        chk.count('span=%d' % (c['lmax'] - c['lmin'])); chk.count('fn=%d' % c['fn'])
+        chk.count('auto/single=%s/%s' % (c['auto'], c['single']))
+        for e in events_of(c):
+            chk.count('event=%s' % (e if isinstance(e, str) else 'rerun'))
+        if c.get('uniform'):
+            chk.count('uniform-refinement')
+        if c.get('nbig'):
+            chk.count('points>=%d' % c['nbig'])
+        if c['npts'] == 0 and not c.get('nbig'):
+            chk.count('points=empty-list')
         if st != 'ok':
             chk.violation('corr:C07/history', 'impl-exception', sig_of(c, exc=(r[0] if r else st)), c,
                           dict(impl=str(r)), failing_input=True)
             continue
         if r['abort']:
-            if c['auto'] and r['abort'][0] == 'AssertionError':
+            ab = r['abort']
+            if c['auto'] and ab[0] == 'AssertionError' and ab[5] and not span0_at(c, ab[3]):
                 chk.count('aborted-by-assert-in-automatic-error-estimator')     # not a C07 observable
             else:
-                chk.violation('corr:C07/history', 'impl-exception', sig_of(c, exc=r['abort'][0], where=r['abort'][1]), c,
-                              dict(impl=str(r['abort'])), failing_input=True)
+                chk.count('exception:%s in %s' % (ab[0], ab[4]))
+                chk.violation('corr:C07/history', 'impl-exception',
+                              sig_of(c, exc=ab[0], func=ab[4], in_auto_estimator=bool(ab[5]), span0=span0_at(c, ab[3])),
+                              dict(c, steps=min(c['steps'], ab[3])), dict(impl=str(ab)), failing_input=True)
             if not r['states']:
                 continue
         chk.traces += 1
-        chk.count('steps=%d' % (len(r['states']) - 1))
+        chk.count('events-run=%d' % (len(r['states']) - 1))
+        chk.count('max-leaves<=%d' % next(b for b in (8, 16, 32, 64, 128, 256, 1024, 10 ** 9) if max(len(s_['leaves']) for s_ in r['states']) <= b))
+        chk.count('lmax-increases=%d' % sum(1 for a_, b_ in zip(r['states'], r['states'][1:])
+                                           if b_['kind'] == 'step' and b_['lmax'][0] > a_['lmax'][0]))
+        chk.count('max-coarsening=%d' % max(l[2] for s_ in r['states'] for l in s_['leaves']))
+        chk.count('interp-values', sum(len(s_.get('interp', [])) for s_ in r['states']))
+        chk.count('nodal-points-checked', sum((s_['ptsum'] or {}).get('nodal_n', 0) for s_ in r['states']))
         mr = mres.get(i)
         ok = True
-        if mr is None or sx.is_err(mr) or isinstance(mr, tuple):
+        if not isinstance(mr, list):
             chk.violation('corr:C07/history', 'model-rejects', sig_of(c), c, dict(model=str(mr)[:300]), failing_input=False)
             ok = False
         else:
             d = compare(c, r, mr)
-            if d and i in mres1 and not sx.is_err(mres1[i]) and not isinstance(mres1[i], tuple) and not compare(c, r, mres1[i]):
+            if d and isinstance(mres1.get(i), list) and not compare(c, r, mres1[i]):
                 chk.count('implementation-follows-repaired-coarsen_grid')
                 d = None
             if d:
@@ -491,11 +781,14 @@ def check_cases(chk, cases):
                 fc = dict(c, steps=(fk if why else k))
                 o = diff[0]
                 det = dict(step=k, differs=diff, property_predicate=why and why[1])
-                if o in cm and isinstance(cm[o], list):
+                if o == 'interp':
+                    det.update(points_impl_model=str(cm.get('interp_bad')))
+                elif o in cm and isinstance(cm[o], list):
                     det.update(model_only=str([x for x in cm[o] if x not in ci[o]][:4])[:900],
                                impl_only=str([x for x in ci[o] if x not in cm[o]][:4])[:900])
                 elif o in cm:
                     det.update(model=str(cm[o]), impl=str(ci[o]))
+                # a differing interpolant at points of the domain is itself a concrete failing input when the point is an area grid point
                 chk.violation('corr:C07/' + o, 'history-differs', sig_of(c, observable=o), fc, det, failing_input=bool(why))
                 ok = False
         # the oracle runs on every implementation state, independent of the model
@@ -513,11 +806,11 @@ def check_cases(chk, cases):
                     checker_in[key] = (dict(c, steps=k), bx, is_['lmax'], (k, c['steps']))
                 chk.count('checker:area-scheme-pairs')
         nref = sum(len(s_['refined']) for s_ in r['states'])
-        next = sum(1 for s_ in r['states'] for x in s_['refined'] if x[1])
-        if nref >= 2 and 0 < next < nref:
+        next_ = sum(1 for s_ in r['states'] for x in s_['refined'] if x[1])
+        if nref >= 2 and 0 < next_ < nref:
             keys.append(case_key(c))
             if len(samples) < 3:
-                samples.append(dict(case=c, refinements=nref, extends=next, final_lmax=r['states'][-1]['lmax'][0],
+                samples.append(dict(case=c, refinements=nref, extends=next_, final_lmax=r['states'][-1]['lmax'][0],
                                     final_leaves=len(r['states'][-1]['leaves'])))
     # verified checker valid_local_combi (extracted) on the distinct local combinations seen on the implementation
     ck = list(checker_in.items())
@@ -532,46 +825,156 @@ def check_cases(chk, cases):
     return keys, samples
 
 
+# ------------------------------------------------------------------------------------------------ sweep of coarsen_grid
+def gen_sweeps(rng):
+    """all (dim, version) in 2..5 x 0..2; per object a shuffled sequence of start levels"""
+    out = []
+    for dim in (2, 3, 4, 5):
+        spans = {2: range(0, 7), 3: range(0, 7), 4: range(0, 5), 5: range(0, 4)}[dim]
+        for version in (0, 1, 2):
+            cfgs = [(lmin, lmin + sp) for lmin in (0, 1, 2, 3) for sp in spans if not (dim >= 4 and lmin == 0)]
+            rng.shuffle(cfgs)
+            for part in (cfgs[0::2], cfgs[1::2]):
+                out.append(dict(kind='sweep', dim=dim, version=version, configs=[list(x) for x in part]))
+    return out
+
+
+def check_sweeps(chk, sweeps):
+    impl = run_impl(sweep_run, sweeps, limit=240)
+    jobs, owner = [], []
+    for si, (c, (st, r)) in enumerate(zip(sweeps, impl)):
+        if st != 'ok':
+            chk.violation('corr:C07/sweep', 'impl-exception', dict(version=c['version'], dim1=False, exc=(r[0] if r else st)), c,
+                          dict(impl=str(r)), failing_input=True)
+            continue
+        for ri, row in enumerate(r):
+            for variant in ((0, 1) if (c['version'] in (1, 2) and row['lmin'] != 1) else (0,)):
+                jobs.append((4, [c['dim'], c['version'], row['lmin'], row['lmax'], row['c'], variant]))
+                owner.append((si, ri, variant))
+    res = run_model(7, jobs)
+    byrow = {}
+    for (si, ri, variant), m in zip(owner, res):
+        byrow.setdefault((si, ri), {})[variant] = m
+    n = 0
+    keys = []
+    for (si, ri), ms in sorted(byrow.items()):
+        c, row = sweeps[si], impl[si][1][ri]
+        one = dict(kind='sweep', dim=c['dim'], version=c['version'], configs=[[row['lmin'], row['lmax']]], only_c=row['c'])
+        n += 1
+        chk.count('sweep:dim=%d' % c['dim']); chk.count('sweep:version=%d' % c['version'])
+        chk.count('sweep:lmin=%d' % row['lmin']); chk.count('sweep:span=%d' % (row['lmax'] - row['lmin'])); chk.count('sweep:c=%d' % row['c'])
+        if row['c'] >= 1 and row['lmax'] - row['lmin'] >= 2:
+            keys.append(('sweep', c['dim'], c['version'], row['lmin'], row['lmax'], row['c']))
+        ip = [sorted(p) for p in row['passes']]
+        agree = False
+        detail = None
+        for variant, m in sorted(ms.items(), reverse=True):
+            if not model_ok(m):
+                detail = dict(model=str(m)[:300])
+                continue
+            if sorted(m[0]) == ip[0] and sorted(m[1]) == ip[1] and m[2] == 1:
+                agree = True
+                if variant == 1:
+                    chk.count('sweep:implementation-follows-repaired-coarsen_grid')
+                break
+            which = 0 if sorted(m[0]) != ip[0] else 1
+            detail = dict(lmin=row['lmin'], lmax=row['lmax'], coarsening=row['c'], pass_=which + 1, model_assert_ok=m[2],
+                          model_only=str([x for x in sorted(m[which]) if x not in ip[which]][:4]),
+                          impl_only=str([x for x in ip[which] if x not in sorted(m[which])][:4]))
+        # the oracle on the implementation alone: both passes give a valid local combination
+        coeff = {tuple(l): cf for l, cf in row['scheme']}
+        why = None
+        for pi, p in enumerate(row['passes']):
+            d = combi_defect(c['dim'], [(tuple(lc), coeff[tuple(l)]) for l, lc, dc in p if dc])
+            if d:
+                why = 'lmin=%d lmax=%d coarsening=%d pass %d: %s' % (row['lmin'], row['lmax'], row['c'], pi + 1, d[0])
+                break
+        if not why and row['passes'][0] != row['passes'][1]:
+            why = 'lmin=%d lmax=%d coarsening=%d: the second pass of coarsen_grid over the scheme on the same area answers differently' % (
+                row['lmin'], row['lmax'], row['c'])
+        sg = dict(version=c['version'], auto=False, single=False, lmin_gt1=row['lmin'] > 1, dim1=False)
+        if not agree:
+            chk.violation('corr:C07/sweep-coarsen_grid', 'sweep-differs', dict(sg, observable='coarsen_grid'), one,
+                          dict(detail or {}, property_predicate=why), failing_input=bool(why))
+        elif why:
+            chk.violation('oracle:local-combination', 'property-predicate', dict(sg, predicate='local-combination'), one,
+                          dict(why=why), failing_input=True)
+    return n, keys
+
+
 def run(chk):
     chk.coq_obligations()
-    n = chk.n(260, 4000)
+    n = chk.n(250, 4000)
     cases = CORPUS + [gen_case(chk.rng, chk.tier, i) for i in range(n)]
     keys, samples = check_cases(chk, cases)
     chk.record_cases(len(cases), keys,
-                     'random extend-split histories on the real SpatiallyAdaptiveExtendScheme (d 2..3, versions 0..2, '
-                     'number_of_refinements_before_extend 0..3, automatic_extend_split on/off, split_single_dim on/off, '
-                     'lmin 1..2, lmax-lmin 1..2, 2..5 refine() rounds, scripted benefits); non-trivial = at least two '
-                     'areas refined and both an extend and a split occurred; distinct by configuration+seed', samples)
+                     'random extend-split histories on ONE real SpatiallyAdaptiveExtendScheme object (d 1..4, versions 0..2, '
+                     'number_of_refinements_before_extend 0..3 and 6, automatic_extend_split on/off, split_single_dim on/off, '
+                     'lmin 1..3, lmax-lmin 0..3, 2..5 events: refine() rounds, restarts with the old refinement container, '
+                     're-runs with other start levels; scripted benefits; coarsen_grid, point assignment and interpolation '
+                     'between the events); non-trivial = at least two areas refined and both an extend and a split occurred; '
+                     'distinct by configuration+seed', samples)
+    sweeps = gen_sweeps(chk.rng)
+    ns, skeys = check_sweeps(chk, sweeps)
+    chk.record_cases(ns, skeys,
+                     'exhaustive sweep of coarsen_grid on fresh areas: d 2..5, versions 0..2, lmin 0..3, lmax-lmin 0..6 (d<=3), '
+                     '0..4 (d=4), 0..3 (d=5), every coarsening value 0..lmax-lmin, two passes per area; one strategy object per '
+                     '(d, version, half of the start levels) re-initialised for every start level; non-trivial = coarsening >= 1 '
+                     'and lmax-lmin >= 2', [dict(sweep=s_) for s_ in sweeps[:1]])
 
 
 def replay(chk, rep):
     c = rep['case']
+    if c.get('kind') == 'sweep':
+        st, r = run_impl(sweep_run, [c])[0]
+        if st != 'ok':
+            print('impl:', st, r)
+            return 1
+        rc = 0
+        for row in r:
+            if 'only_c' in c and row['c'] != c['only_c']:
+                continue
+            coeff = {tuple(l): cf for l, cf in row['scheme']}
+            ms = run_model(7, [(4, [c['dim'], c['version'], row['lmin'], row['lmax'], row['c'], v]) for v in (1, 0)])
+            ip = [sorted(p) for p in row['passes']]
+            agree = any(model_ok(m) and sorted(m[0]) == ip[0] and sorted(m[1]) == ip[1] for m in ms)
+            d = None
+            for p in row['passes']:
+                d = d or combi_defect(c['dim'], [(tuple(lc), coeff[tuple(l)]) for l, lc, dc in p if dc])
+            print('lmin=%d lmax=%d coarsening=%d: %s | property predicate: %s' % (
+                row['lmin'], row['lmax'], row['c'], 'model agrees' if agree else 'MODEL DIFFERS', d[0] if d else 'holds'))
+            print('  computed grids (impl):', [(lc, str(coeff[tuple(l)])) for l, lc, dc in row['passes'][0] if dc])
+            if d or not agree:
+                rc = 1
+        return rc
     st, r = run_impl(impl_run, [c])[0]
     if st != 'ok':
         print('impl:', st, r)
         return 1
     print('impl: %d states, abort=%s' % (len(r['states']), r['abort']))
-    mr = run_model(7, [(0, model_input(c, r, 0))])[0]
-    if c['lmin'] > 1 and not sx.is_err(mr) and compare(c, r, mr):
-        m1 = run_model(7, [(0, model_input(c, r, 1))])[0]
-        if not sx.is_err(m1) and not compare(c, r, m1):
+    if not r['states']:
+        return 1
+    mr = run_models([c], [(st, r)], [0], 0)[0]
+    if uses_repaired_levels(c) and isinstance(mr, list) and compare(c, r, mr):
+        m1 = run_models([c], [(st, r)], [0], 1)[0]
+        if isinstance(m1, list) and not compare(c, r, m1):
             print('implementation follows the repaired coarsen_grid (fixes/C07-coarsen-lmin.patch)')
             mr = m1
     rc = 0
     for k, is_ in enumerate(r['states']):
         ci = canon_impl(is_)
-        line = 'step %d: lmax=%s leaves=%d refined=%s' % (k, ci['lmax'], len(ci['leaves']), ci['refined'])
-        if not sx.is_err(mr) and k < len(mr):
-            cm = canon_model(mr[k])
-            diff = [o for o in OBS if cm[o] != ci[o]]
-            line += ' | model agrees' if not diff else ' | MODEL DIFFERS in %s' % diff
-            if diff:
+        line = 'state %d (%s): lmax=%s leaves=%d refined=%s' % (k, is_['kind'], ci['lmax'], len(ci['leaves']), ci['refined'])
+        if isinstance(mr, list) and k < len(mr):
+            d = compare(c, dict(states=[is_]), [mr[k]])
+            line += ' | model agrees' if not d else ' | MODEL DIFFERS in %s' % d[1]
+            if d:
                 rc = 1
         why = oracle_state(c, is_)
         line += ' | property predicate: ' + (why[1] if why else 'holds')
         print(line)
         if why:
             rc = 1
-    if r['abort'] and not (c['auto'] and r['abort'][0] == 'AssertionError'):
+    if r['abort'] and not (c['auto'] and r['abort'][0] == 'AssertionError' and r['abort'][5] and not span0_at(c, r['abort'][3])):
+        print('implementation raised:', r['abort'])
         rc = 1
     return rc
